@@ -202,8 +202,11 @@ func Corrupt(r *rand.Rand, root reflect.Value, p Path) (Path, string) {
 		case 0:
 			if base.Type().Key().Kind() == reflect.String {
 				s = Step{Kind: SField, Name: "absent", Bracket: true}
-				if r.Intn(2) == 0 {
+				switch k := r.Intn(3); {
+				case k == 0:
 					s = Step{Kind: SIndex, Index: VarRef("kabsent")}
+				case k == 1 && at < len(q.Steps)-1:
+					s = Step{Kind: SField, Name: "absent"} // dot form, only with a further access below it
 				}
 			} else {
 				s = Step{Kind: SIndex, Index: 77}
